@@ -373,7 +373,7 @@ def r4(ctx):
         tail_else = n if isinstance(n, tuple) else None
         ops = {}
         for t, body in arms:
-            b = N.b(t, integer=True)
+            b = N.b(inline(t, penv), integer=True)
             for name, src in (("lt", f"{pv}.size < {target}"), ("eq", f"{pv}.size == {target}"), ("gt", f"{pv}.size > {target}")):
                 if b == N.b(parse_expr(src), integer=True):
                     ops[name] = body
@@ -398,7 +398,11 @@ def r4(ctx):
         ok = False
         if len(ch) == 1:
             pop, size, rep = arg(ch[0], 0, "a"), arg(ch[0], 1, "size"), arg(ch[0], 2, "replace")
-            pop_i = U(inline(pop, penv)).replace(" ", "")
+            genv0 = dict(penv)
+            for st in ops["gt"]:
+                if isinstance(st, ast.Assign) and isinstance(st.targets[0], ast.Name):
+                    genv0[st.targets[0].id] = st.value
+            pop_i = U(inline(pop, genv0)).replace(" ", "")
             ok = pop_i in (f"np.arange({S}.size)[{pv}.selection_vector]", f"np.flatnonzero({pv}.selection_vector)", f"np.where({pv}.selection_vector)[0]") \
                 and U(size) == target and U(ch[0].func.value) == "rng"
             genv = {}
@@ -409,7 +413,7 @@ def r4(ctx):
             if ok and len(app) == 1:
                 v = inline(app[0].args[0], genv)
                 # what is kept must be (a view / index set made of) exactly the drawn rows
-                ok = U(ch[0]).replace(" ", "") in U(v).replace(" ", "")
+                ok = U(inline(ch[0], genv)).replace(" ", "") in U(v).replace(" ", "")
             else:
                 ok = False
         ctx.check("R4", f"{f.site()}::subsample-large", ok, f"larger plates keep `{target}` drawn rows of their own (no-duplication is C11.R3's clause)",
